@@ -181,7 +181,7 @@ def keyed_fold_harness(w, iters, max_len, kinds='ITW', hash_order='any'):
 def keyed_fold_tasks(tier, role):
     it, ln = (2, 3) if tier == 'quick' else (2, [4, 2])
     return [Task('keyed_fold_i%d_l%s' % (it, str(ln).replace(' ', '').replace('[', '').replace(']', '').replace(',', '-')), 'keyed_fold_harness', {'iters': it, 'max_len': ln},
-                 bounds='KeyedFold::next driven to Terminate; upstream: %d iterations x <=%d elements '
+                 bounds='KeyedFold::next driven to Terminate; upstream: %d iterations x <=%s elements '
                         '(Item/Timestamped/Watermark), keys and values u8 symbolic (every equality pattern), '
                         'HashMap drain in every order; user fold uninterpreted' % (it, ln),
                  role=role, opts={'covers': ['two_keys']}, budget=300)]
